@@ -481,15 +481,11 @@ PROPS = {
             {"group": "g0", "name": "c05_mx_srv_roundtrip_bounded", "kind": "bounded", "tier": "thorough", "timeout": 1500,
              "bound": "one fixed mixed-case two-label name, all scalar fields",
              "what": "MX, SRV: rdlen exact; canonical form == wire form with exactly the embedded name lower-cased (RFC 4034 6.2 / RFC 6840 5.1)"},
-            {"group": "g0", "name": "c05_enum_dispatch_mx_bounded", "kind": "bounded", "tier": "quick", "timeout": 900,
-             "bound": "one variant (MX) of ZoneRecordData and AllRecordData, fixed exchange name with upper-case letters, preference symbolic",
-             "what": "the macro-generated enums dispatch compose_rdata, compose_canonical_rdata and rdlen to the variant's own method"},
         ],
         "explanation": "Unit tsig (rdata/tsig.rs, base/rdata.rs): Tsig::new accepts exactly the data whose wire length (algorithm "
                        "name + 16 + MAC + other) fits the 16-bit RDLENGTH, LongRecordData::{check_len, check_append_len} are the "
                        "65535 limit, and Tsig::rdlen on an accepted value equals that wire length with no failing expect() or "
-                       "overflow. Kani c05_enum_dispatch_mx_bounded: ZoneRecordData / AllRecordData dispatch compose, canonical "
-                       "compose and rdlen to the variant. Otherwise: bounded/complete contract checking with Kani of the compose/parse/rdlen quadruple on the compiled, "
+                       "overflow. Otherwise: bounded/complete contract checking with Kani of the compose/parse/rdlen quadruple on the compiled, "
                        "macro-generated generic code, for the record types CBMC can handle: A and AAAA complete over all values; DS, "
                        "DNSKEY, TLSA, SSHFP, HINFO with small symbolic octet fields; MX and SRV with one fixed name (canonical "
                        "lower-casing). Verus unit rtypebitmap (rdata/dnssec.rs, real text): the type bitmap shared by NSEC, NSEC3 "
@@ -504,7 +500,9 @@ PROPS = {
             "octets values are at most a quarter of the address space long (makes the checked_add(..).expect() of Tsig::new dead code)",
             "ToName::compose_len is between 1 and 255 (C03)",
         ],
-        "not_covered": "All other types (NS-family, SOA, TXT, NAPTR, CAA, RRSIG, the NSEC/NSEC3 records around the bitmap, NSEC3PARAM, SVCB/HTTPS, OPT and its "
+        "not_covered": "The macro-generated enums ZoneRecordData/AllRecordData (rdata/macros.rs: one match arm per method and variant; "
+                       "extraction works on syn items, not macro bodies, and CBMC does not finish on the enum even for one variant: "
+                       "seeded change C05-6 is missed). All other types (NS-family, SOA, TXT, NAPTR, CAA, RRSIG, the NSEC/NSEC3 records around the bitmap, NSEC3PARAM, SVCB/HTTPS, OPT and its "
                        "options, TSIG, ZONEMD, IPSECKEY, OPENPGPKEY, CDS/CDNSKEY, Unknown/opaque carry), symbolic names inside RDATA "
                        "(CBMC does not finish on symbolic names), LongRecordData limits near 65535 octets.",
     },
